@@ -100,7 +100,14 @@ ForeignSweep ==
                       pos \in (IF Deep THEN {0, Len(At(BaseTree(b), m.p).m)} ELSE {Len(At(BaseTree(b), m.p).m)})}
                   : m \in ExtMaps(b)} : b \in (IF Deep THEN {BaseSeq[1], BaseSeq[2], BaseSeq[3]} ELSE {BaseSeq[1]})}
 
-MC_Cases == ValueSweep \cup PositionSweep \cup Multi \cup ForeignSweep
+\* MANY unknown members at once (a decoder that remembers the names it has seen has a capacity)
+UName(i) == <<122, 48 + (i \div 10), 48 + (i % 10)>>        \* "z00" .. "z99"
+Many ==
+    UNION {UNION {{[op |-> "decode2", tag |-> "unknown-many", c |-> b.c, sv |-> << >>, base |-> b.i, schema |-> m.s,
+             wire |-> <<b.c>> \o Enc(Put(BaseTree(b), m.p, CMap(At(BaseTree(b), m.p).m \o [i \in 1..n |-> <<CText(UName(i)), CU(i)>>])))]
+            : n \in {4, 5, 6, 7, 8, 9, 15, 16, 17, 24, 32, 64}} : m \in ExtMaps(b)} : b \in {BaseSeq[1], BaseSeq[2], BaseSeq[4]}}
+
+MC_Cases == ValueSweep \cup PositionSweep \cup Multi \cup ForeignSweep \cup Many
 
 \* the part of this corpus that C04 replays (the skipper must not crash, whatever it is fed)
 C04_Cases ==
